@@ -210,6 +210,7 @@ func rulesC11(c *Ctx) {
 	}
 
 	allSubsC11(c)
+	emptyClassC11(c, ops)
 	// ---- C11.cap ----
 	c.Rule("C11.cap", "every slice matchRegex allocates for a product or a character-class expansion is sized by a value tested `> 100` on a failing branch first, and a list grown by appending alternatives is tested `> 100` before it is returned: more than 100 literals are never produced")
 	nCap := 0
@@ -543,4 +544,52 @@ func allSubsC11(c *Ctx) {
 		return true
 	})
 	c.Floor("C11.allsubs", n, 2)
+}
+
+// emptyClassC11: a character class with no members matches nothing; it must
+// not be expanded to an empty list, which the rewrite reads as "the empty string".
+func emptyClassC11(c *Ctx, ops map[string]int64) {
+	p := c.P
+	c.Rule("C11.emptyclass", "matchRegex, evaluated with the node's Op bound to OpCharClass and the length of its rune table bound to 0, does not report success: an empty class matches no string at all, while an empty list of literals is rewritten to `= ''`")
+	f := p.SSAFunc(p.Func("matchRegex"))
+	if f == nil {
+		c.Unk("C11.emptyclass", "matchRegex", 0, "anchor not found")
+		return
+	}
+	var lens []ssa.Value
+	for _, b := range f.Blocks {
+		for _, in := range b.Instrs {
+			call, ok := in.(*ssa.Call)
+			if !ok {
+				continue
+			}
+			if bi, ok := call.Call.Value.(*ssa.Builtin); ok && bi.Name() == "len" && len(call.Call.Args) == 1 {
+				if _, fld, ok := fieldRef(call.Call.Args[0]); ok && fld == "Rune" {
+					lens = append(lens, call)
+				}
+			}
+		}
+	}
+	key := "matchRegex: OpCharClass with no members"
+	if len(lens) == 0 {
+		c.Unk("C11.emptyclass", key, f.Pos(), "no len(re.Rune) found")
+		return
+	}
+	s := p.newSCCP()
+	s.override = map[ssa.Value]cval{}
+	for _, l := range fieldLoads(f, "Op") {
+		s.override[l] = cConst(constant.MakeInt64(ops["OpCharClass"]))
+	}
+	for _, l := range fieldLoads(f, "Flags") {
+		s.override[l] = cConst(constant.MakeInt64(0))
+	}
+	for _, l := range lens {
+		s.override[l] = cConst(constant.MakeInt64(0))
+	}
+	r := s.run(f, nil, 0)
+	if mayReturnTrue(r, f, 1) {
+		c.Bad("C11.emptyclass", key, f.Pos(), "reports success with zero literals: `host =~ /^[^\\x00-\\x{10FFFF}]$/` (matches nothing) is rewritten to host = '' (matches the empty string), and !~ to host != ''")
+	} else {
+		c.OK("C11.emptyclass", key, f.Pos(), "fails, so the condition is left as a regex")
+	}
 }
